@@ -24,6 +24,7 @@ impl<E> HandlePredicate<E> {
 pub struct ValueFn<Res> { pub id: Ghost<int>, pub p: core::marker::PhantomData<Res> }
 pub uninterp spec fn value_fn_spec<Res>(f: ValueFn<Res>) -> Res;
 impl<Res> ValueFn<Res> {
+    #[verifier::external_body] pub fn vx_clone(&self) -> (r: Self) ensures r == *self { unimplemented!() }
     #[verifier::external_body]
     pub fn vx_call<Req, E>(&self, Tracked(tr): Tracked<&mut Trace<Req, Res, E>>) -> (r: Res)
         ensures r == value_fn_spec(*self), *final(tr) == (Trace { fb_calls: old(tr).fb_calls + 1, ..*old(tr) }),
@@ -32,6 +33,7 @@ impl<Res> ValueFn<Res> {
 pub struct FromErrorFn<Res, E> { pub id: Ghost<int>, pub p: core::marker::PhantomData<(Res, E)> }
 pub uninterp spec fn from_error_spec<Res, E>(f: FromErrorFn<Res, E>, e: E) -> Res;
 impl<Res, E> FromErrorFn<Res, E> {
+    #[verifier::external_body] pub fn vx_clone(&self) -> (r: Self) ensures r == *self { unimplemented!() }
     #[verifier::external_body]
     pub fn vx_call<Req>(&self, e: &E, Tracked(tr): Tracked<&mut Trace<Req, Res, E>>) -> (r: Res)
         ensures r == from_error_spec(*self, *e), *final(tr) == (Trace { fb_calls: old(tr).fb_calls + 1, ..*old(tr) }),
@@ -40,6 +42,7 @@ impl<Res, E> FromErrorFn<Res, E> {
 pub struct FromRequestErrorFn<Req, Res, E> { pub id: Ghost<int>, pub p: core::marker::PhantomData<(Req, Res, E)> }
 pub uninterp spec fn from_req_err_spec<Req, Res, E>(f: FromRequestErrorFn<Req, Res, E>, req: Req, e: E) -> Res;
 impl<Req, Res, E> FromRequestErrorFn<Req, Res, E> {
+    #[verifier::external_body] pub fn vx_clone(&self) -> (r: Self) ensures r == *self { unimplemented!() }
     #[verifier::external_body]
     pub fn vx_call(&self, req: &Req, e: &E, Tracked(tr): Tracked<&mut Trace<Req, Res, E>>) -> (r: Res)
         ensures r == from_req_err_spec(*self, *req, *e), *final(tr) == (Trace { fb_calls: old(tr).fb_calls + 1, ..*old(tr) }),
@@ -48,6 +51,7 @@ impl<Req, Res, E> FromRequestErrorFn<Req, Res, E> {
 pub struct ExceptionFn<E> { pub id: Ghost<int>, pub p: core::marker::PhantomData<E> }
 pub uninterp spec fn exception_spec<E>(f: ExceptionFn<E>, e: E) -> E;
 impl<E> ExceptionFn<E> {
+    #[verifier::external_body] pub fn vx_clone(&self) -> (r: Self) ensures r == *self { unimplemented!() }
     #[verifier::external_body]
     pub fn vx_call<Req, Res>(&self, e: E, Tracked(tr): Tracked<&mut Trace<Req, Res, E>>) -> (r: E)
         ensures r == exception_spec(*self, e), *final(tr) == (Trace { fb_calls: old(tr).fb_calls + 1, ..*old(tr) }),
@@ -56,6 +60,7 @@ impl<E> ExceptionFn<E> {
 pub struct ServiceFn<Req, Res, E> { pub id: Ghost<int>, pub p: core::marker::PhantomData<(Req, Res, E)> }
 pub struct FbFut<Req, Res, E> { pub req: Ghost<Req>, pub p: core::marker::PhantomData<(Req, Res, E)> }
 impl<Req, Res, E> ServiceFn<Req, Res, E> {
+    #[verifier::external_body] pub fn vx_clone(&self) -> (r: Self) ensures r == *self { unimplemented!() }
     #[verifier::external_body]
     pub fn vx_call(&self, req: Req) -> (f: FbFut<Req, Res, E>) ensures f.req@ == req { unimplemented!() }
 }
@@ -95,6 +100,16 @@ pub open spec fn strategy_answer<Req, Res, E>(s: FallbackStrategy<Req, Res, E>, 
     }
 }
 
+impl<E: VClone> FallbackError<E> {
+    pub fn clone(&self) -> (r: Self)
+        ensures r == *self,   // #a_cloned_error_says_the_same_thing [C17]
+    //@body FallbackError::clone@Clone file=error
+}
+impl<Req, Res: VClone, E> FallbackStrategy<Req, Res, E> {
+    pub fn clone(&self) -> (r: Self)
+        ensures r == *self,   // #a_cloned_strategy_is_the_same_strategy [C17]
+    //@body FallbackStrategy::clone@Clone
+}
 impl<Req: VClone, Res: VClone, E> Fallback<Req, Res, E> {
     pub fn new(inner: Inner<Req, Res, E>, config: Arc<FallbackConfig<Req, Res, E>>) -> (r: Self)
         ensures r.inner == inner && r.config == config,   // #keeps_config_and_inner [C17,C20]
